@@ -147,6 +147,7 @@ func (e cfErrors) Error() string {
 // PublishECH updates the target DNS records with a new config list.
 func (cf *CloudflarePublisher) PublishECH(ctx context.Context, records []Target, configList []byte) []TargetResult {
 	zones := make(map[string]bool)
+	zoneErrs := make(map[string]error)
 	data := make(map[zoneName]idData)
 
 	newValue := base64.StdEncoding.EncodeToString(configList)
@@ -156,16 +157,17 @@ func (cf *CloudflarePublisher) PublishECH(ctx context.Context, records []Target,
 		var result TargetResult
 		if !zones[r.Zone] {
 			zones[r.Zone] = true
-			if err := cf.getZoneData(ctx, r.Zone, data); err != nil {
-				if err == errNotFound {
-					result.Code = StatusNotFound
-				} else {
-					result.Code = StatusError
-					result.Error = err
-				}
-				results = append(results, result)
-				continue
+			zoneErrs[r.Zone] = cf.getZoneData(ctx, r.Zone, data)
+		}
+		if err := zoneErrs[r.Zone]; err != nil {
+			if err == errNotFound {
+				result.Code = StatusNotFound
+			} else {
+				result.Code = StatusError
+				result.Error = err
 			}
+			results = append(results, result)
+			continue
 		}
 
 		v, exists := data[zoneName{r.Zone, r.Name}]
